@@ -242,8 +242,51 @@ Lemma sp_capacity_nx c st nx v want exact r : sp_capacity c st nx v want exact =
 Proof. unfold sp_capacity. cbv zeta. intros H. crush H; cbn; split; lia. Qed.
 Lemma sp_drain_nx c st nx v sb eb pat f r : sp_drain c st nx v sb eb pat f = Some r -> nx <= s_nx r /\ s_out r < 100.
 Proof. unfold sp_drain. cbv zeta. intros H. crush H; cbn; split; lia. Qed.
+Lemma sp_item_nx c v : forall sk st nx t,
+  match sp_item c v st nx t sk with
+  | Some (inl (_, _, _, _, nx1)) => nx <= nx1
+  | Some (inr (_, _, _, nx1)) => nx <= nx1
+  | None => True
+  end.
+Proof.
+  induction sk as [| |dst|dst j| |sk' IH|n0 dst sk' IH|n0 sk' IH|]; intros st nx t; cbn [sp_item]; try lia; try exact I.
+  - destruct (Nat.eqb dst v); [exact I|]. destruct (get_a dst st) as [b|]; [|exact I].
+    destruct (put_value c b None t); lia.
+  - destruct (Nat.eqb dst v); [exact I|]. destruct (get_a dst st) as [b|]; [|exact I].
+    destruct (put_value c b (Some j) t); lia.
+  - destruct (Nat.eqb dst v); [exact I|]. destruct (get_a dst st) as [b|]; [|exact I].
+    destruct (sp_lazy_pushes c b t nx (N.to_nat n0)) as [[[b' evs] nx'] ok] eqn:Esp.
+    destruct (sp_lazy_pushes_nx c t _ _ _ _ _ _ _ Esp) as (Hge & _).
+    destruct ok; [|exact Hge].
+    specialize (IH (set_a dst (Some b') st) nx' t).
+    destruct (sp_item c v (set_a dst (Some b') st) nx' t sk') as [[[[[[out evs2] st2] lost2] nx2]|[[[p evs2] st2] nx2]]|]; try exact I; lia.
+  - specialize (IH st (nx + n0) t).
+    destruct (sp_item c v st (nx + n0) t sk') as [[[[[[out evs2] st2] lost2] nx2]|[[[p evs2] st2] nx2]]|]; try exact I; lia.
+Qed.
+Definition wres_nx (r : wres) : N := match r with WDone _ _ _ _ _ _ n | WStop _ _ _ _ _ _ n => n end.
+Lemma sp_walk_mv_nx c v xs : forall pat i j st nx r, sp_walk_mv c v xs pat i j st nx = Some r -> nx <= wres_nx r.
+Proof.
+  induction pat as [|[front sk] pat IH]; intros i j st nx r H; cbn [sp_walk_mv] in H.
+  - injection H as <-. cbn. lia.
+  - destruct (i =? j)%nat.
+    + destruct (sp_walk_mv c v xs pat i j st nx) as [r0|] eqn:E; [|discriminate].
+      apply IH in E. destruct r0; injection H as <-; exact E.
+    + match type of H with context [sp_item c v st nx ?t sk] => pose proof (sp_item_nx c v sk st nx t) as Hi;
+        destruct (sp_item c v st nx t sk) as [[[[[[out evs0] st1] lost0] nx1]|[[[p evs0] st1] nx1]]|] end; [| |discriminate].
+      * match type of H with context [sp_walk_mv c v xs pat ?i1 ?j1 st1 nx1] =>
+          destruct (sp_walk_mv c v xs pat i1 j1 st1 nx1) as [r0|] eqn:E end; [|discriminate].
+        apply IH in E. destruct r0; injection H as <-; cbn [wres_nx] in *; lia.
+      * injection H as <-. exact Hi.
+Qed.
 Lemma sp_drain_mv_nx c st nx v sb eb pat f r : sp_drain_mv c st nx v sb eb pat f = Some r -> nx <= s_nx r /\ s_out r < 100.
-Proof. unfold sp_drain_mv. cbv zeta. intros H. crush H; cbn; split; lia. Qed.
+Proof.
+  unfold sp_drain_mv. cbv zeta. intros H.
+  destruct (get_a v st) as [a|]; [|discriminate].
+  destruct (range_of_bounds usize_max (N.of_nat (length (a_xs a))) (to_sb sb) (to_sb eb)) as [[s e]|]; [|injection H as <-; cbn; split; lia].
+  match type of H with context [sp_walk_mv c v ?xs pat ?i ?j ?h nx] =>
+    destruct (sp_walk_mv c v xs pat i j h nx) as [r0|] eqn:E end; [|discriminate].
+  apply sp_walk_mv_nx in E. destruct r0; [destruct f|]; injection H as <-; cbn [wres_nx] in E; cbn; split; lia.
+Qed.
 Lemma sp_splice_nx c st nx v sb eb pat f rk n wa cl r :
   sp_splice c st nx v sb eb pat f rk n wa cl = Some r -> nx <= s_nx r /\ s_out r < 100.
 Proof.
@@ -255,8 +298,15 @@ Lemma sp_splice_mv_nx c st nx v sb eb pat f rk n wa cl r :
   sp_splice_mv c st nx v sb eb pat f rk n wa cl = Some r -> nx <= s_nx r /\ s_out r < 100.
 Proof.
   intros H. destruct (sp_splice_mv_inv _ _ _ _ _ _ _ _ _ _ _ _ _ H) as (_ & _ & H'). clear H.
-  unfold sp_splice_mv0, sp_splice_fin in H'. cbv zeta in H'.
-  crush H'; cbn; split; lia.
+  unfold sp_splice_mv0 in H'. cbv zeta in H'.
+  destruct (get_a v st) as [a|]; [|discriminate].
+  destruct (range_of_bounds usize_max (N.of_nat (length (a_xs a))) (to_sb sb) (to_sb eb)) as [[s e]|]; [|injection H' as <-; cbn; split; lia].
+  match type of H' with context [sp_walk_mv c v ?xs pat ?i ?j ?h ?n0] =>
+    destruct (sp_walk_mv c v xs pat i j h n0) as [r0|] eqn:E end; [|discriminate].
+  apply sp_walk_mv_nx in E.
+  destruct r0; [destruct f|];
+    repeat match type of H' with context [match ?x with _ => _ end] => destruct x; try discriminate end;
+    injection H' as <-; cbn [wres_nx] in E; cbn; split; lia.
 Qed.
 Lemma sp_look_nx c st nx o r : sp_look c st nx o = Some r -> nx <= s_nx r /\ s_out r < 100.
 Proof. unfold sp_look. intros H. crush H; cbn; split; lia. Qed.
@@ -700,6 +750,11 @@ Definition ex_ops : list op :=
     OPush Erased 9 SWrap; OPush Erased 9 SWrap;
     OSplice Erased 9 BUnbounded (BExcluded 1) [(true, KPush 10)] FinDrop RWrap 2 None 2;
     OSplice Typed 9 (BIncluded 1) BUnbounded [(false, KForget); (true, KIns 10 0)] FinDrop RBox 1 None 1;
+    (* lazy clones of drained items: two downcast (a new value each, destroyed by the caller) before the item is dropped;
+       one pushed into another vector before the item itself follows; three offered to the full StackN<2,8>: the
+       first is refused, the unwinding destroys the item and drops the iterator *)
+    ODrain Erased 9 BUnbounded (BExcluded 1) [(true, KLazyDown 2 KDrop)] FinDrop;
+    ODrain Erased 10 BUnbounded BUnbounded [(false, KLazy 1 9 (KPush 9)); (true, KLazy 3 8 KDrop)] FinDrop;
     OViews 8 ].                                   (* view geometry of the full StackN<2,8>: 6 bytes of elements, no spare *)
 
 Example ex_spec_defined : exists rs, spec_run ex_cfg [] 1 ex_ops = Some rs /\ length rs = length ex_ops.
@@ -735,7 +790,8 @@ Example ex_outcomes :
      (0,0,[]); (0,0,[]); (0,0,[61]); (2,1,[]);
      (0,0,[]); (2,3,[]); (0,0,[1]); (0,0,[1; 1; 70; 0]); (0,0,[0]);
      (0,0,[3; 1; 61; 2; 1; 67; 1; 1; 66; 0]); (0,0,[2; 1; 61; 1]); (2,3,[]);
-     (0,0,[]); (0,0,[]); (0,0,[1; 1; 73; 0]); (0,0,[2; 1; 74; 1; 1; 76; 0]); (0,0,[0; 6; 6; 0; 0; 2; 6; 0; 0])].
+     (0,0,[]); (0,0,[]); (0,0,[1; 1; 73; 0]); (0,0,[2; 1; 74; 1; 1; 76; 0]);
+     (0,0,[1; 1; 75; 0; 78; 79]); (2,3,[]); (0,0,[0; 6; 6; 0; 0; 2; 6; 0; 0])].
 Proof. vm_compute. reflexivity. Qed.
 
 (** ** Corollaries in the vocabulary of the properties *)
